@@ -653,10 +653,15 @@ class Runner(object):
         # never observe through the object of an entity that is gone (a stale object re-creates groups)
         self.pairs = [p for p in self.pairs if p["src_id"] in self.last_defined and p["cp_id"] in self.last_defined]
         for p in self.pairs:
-            a = repr(self.subwalk(p["kind"], p["src"], False)[0])
-            b = repr(self.subwalk(p["kind"], p["cp"], False)[0])
-            out.append([p["step"], p["keep"], hash(a) & 0xffffffff, hash(b) & 0xffffffff, p["src_ids"], p["cp_ids"],
-                        p.get("src_own", p["src_ids"]), p.get("cp_own", p["cp_ids"])])
+            wa, ia = self.subwalk(p["kind"], p["src"], False)
+            own_a = self.sub_defined
+            wb, ib = self.subwalk(p["kind"], p["cp"], False)
+            own_b = self.sub_defined
+            # a link made LATER from one side into the other (a section of the source linked to a section of the copy)
+            # ties them together again: what then happens to the target shows on both sides, legitimately
+            cross = bool(((ia - own_a) & own_b) or ((ib - own_b) & own_a))
+            out.append([p["step"], p["keep"], hash(repr(wa)) & 0xffffffff, hash(repr(wb)) & 0xffffffff, p["src_ids"], p["cp_ids"],
+                        p.get("src_own", p["src_ids"]), p.get("cp_own", p["cp_ids"]), cross])
         return out
 
     # ---- model-free oracles for C13: plain recursion over the containers of fresh objects
